@@ -79,8 +79,8 @@ class Run:
         """Run TLC on spec/<module>.tla in a private copy of spec/.  Returns dict with stdout lines,
         JSON records printed by the spec, state counts and the violated property (if any)."""
         name = name or module
-        d = os.path.join(self.scratch, "tlc-" + name + "-" + str(len(os.listdir(self.scratch))))
-        os.makedirs(d)
+        # (a unique directory: validations run in parallel threads, and finished ones remove theirs)
+        d = tempfile.mkdtemp(prefix="tlc-" + name + "-", dir=self.scratch)
         for f in os.listdir(SPEC):
             if f.endswith(".tla") or f.endswith(".cfg"):
                 shutil.copy(os.path.join(SPEC, f), d)
